@@ -84,10 +84,11 @@ EXPRS = [
     "a[b[0]]", "a < b", "a > b", "a < b && c > d", "a <= b", "a >= b", "a >> 2", "a <=> b", "a < (b > c)", "f(a < b, c)", "f(a > b)", "v[a < b]",
     "T<1> {}", "T<(1 > 2)>::q", "operator+", "this->x", "typename X::template Y<Z>::type(1)", "a = b", "a += 1", "1 + (2 * (3 - (4 / 5)))",
     "1u + 2l + 3ul + 4lu + 5ll + 6ull + 7llu + 8LL + 9ULL + 10uLL + 11LLU + 12Ul + 13lU + 0x1fuL", '0_V + 017_perm + 1_V + 0x0_V + 0b0_V + 0.5_V + 0x1p1_V + \'c\'_V + u8\'c\'_V + "s"_V + L"s"_V', "0xDE'AD'BEEF", "0x1'0000'0000ull + 0b1'01 + 0'17",
-] + REQ_EXPRS + TA_EXPRS
+] + REQ_EXPRS + TA_EXPRS + ["1 +\n\\\n2", "1 /* see **note** below */ + 2", "a // c\n + b"]
 EXPRS = list(dict.fromkeys(EXPRS))  # each expression once, order kept
 # token texts written down by hand where the expression exists to pin the lexing of one literal (everything else: lexed alone)
-EXPECT_TOKENS = {'0_V + 017_perm + 1_V + 0x0_V + 0b0_V + 0.5_V + 0x1p1_V + \'c\'_V + u8\'c\'_V + "s"_V + L"s"_V': '0_V + 017_perm + 1_V + 0x0_V + 0b0_V + 0.5_V + 0x1p1_V + \'c\'_V + u8\'c\'_V + "s"_V + L"s"_V'.split(),
+EXPECT_TOKENS = {"1 +\n\\\n2": ["1", "+", "2"], "1 /* see **note** below */ + 2": ["1", "+", "2"], "a // c\n + b": ["a", "+", "b"],
+                 '0_V + 017_perm + 1_V + 0x0_V + 0b0_V + 0.5_V + 0x1p1_V + \'c\'_V + u8\'c\'_V + "s"_V + L"s"_V': '0_V + 017_perm + 1_V + 0x0_V + 0b0_V + 0.5_V + 0x1p1_V + \'c\'_V + u8\'c\'_V + "s"_V + L"s"_V'.split(),
                  "1u + 2l + 3ul + 4lu + 5ll + 6ull + 7llu + 8LL + 9ULL + 10uLL + 11LLU + 12Ul + 13lU + 0x1fuL":
                  "1u + 2l + 3ul + 4lu + 5ll + 6ull + 7llu + 8LL + 9ULL + 10uLL + 11LLU + 12Ul + 13lU + 0x1fuL".split(),
                  "0xDE'AD'BEEF": ["0xDE'AD'BEEF"], "0x1'0000'0000ull + 0b1'01 + 0'17": ["0x1'0000'0000ull", "+", "0b1'01", "+", "0'17"],
